@@ -1,13 +1,16 @@
 (* C17 - proofs about the batching-server model (model/Server.v). *)
 From Coq Require Import ZArith List Bool Lia.
-From TV Require gen.Consts.
-From TV Require Import model.Server proofs.ListUtil.
+From TV Require gen.Consts gen.ServerIR.
+From TV Require Import model.ServerDen model.Server proofs.ListUtil.
 Import ListNotations.
 Open Scope Z_scope.
 
 (* ---- facts about the regenerated constants (re-checked on every run) *)
 Lemma consts_ok : 1 <= threshold /\ threshold <= cap.
 Proof. vm_compute. split; intro H; discriminate H. Qed.
+(* the hand-out loop of the regenerated protocol gives result row i to request i *)
+Lemma pairing_identity : pairing = ServerIR.IdxI.
+Proof. vm_compute. reflexivity. Qed.
 Lemma cap_pos : 1 <= cap.
 Proof. destruct consts_ok; lia. Qed.
 
@@ -111,6 +114,7 @@ Section Proofs.
       destruct (d <=? t); split; reflexivity.
     - destruct (wk st) as [|b d|b] eqn:Ew; try (left; split; reflexivity).
       right. exists b, t. split; [reflexivity|]. split; [reflexivity|].
+      rewrite pairing_identity. cbn [pair_results].
       match goal with |- context [resume ?s t] => destruct (resume_log s t) as [H1 H2]; rewrite H1, H2 end.
       split; reflexivity.
   Qed.
@@ -136,7 +140,16 @@ Section Proofs.
   }.
 
   Lemma Inv_init : Inv [] (init A).
-  Proof. constructor; cbn; auto; try lia. - pose proof cap_pos; lia. - intro H; congruence. Qed.
+  Proof.
+    pose proof cap_pos as Hcp.
+    constructor; cbn [init queue blocked wk started answers completed pending batch_of map app concat].
+    - reflexivity.
+    - replace (qlen (@nil req)) with 0 by reflexivity. lia.
+    - exact Logic.I.
+    - intro H; congruence.
+    - reflexivity.
+    - constructor.
+  Qed.
 
   Lemma concat_snoc (l : list (Z * list req)) t b : concat (map snd (l ++ [(t, b)])) = concat (map snd l) ++ b.
   Proof. rewrite map_app, concat_app. cbn. rewrite app_nil_r. reflexivity. Qed.
@@ -261,7 +274,7 @@ Section Proofs.
       + unfold running_batch in *; cbn [wk]. rewrite concat_snoc, Hs, ?Ew, app_nil_r. reflexivity.
       + apply Forall_snoc; [exact Hf|split; cbn [snd]; [exact Hbne|lia]].
     - (* ModelDone *)
-      rewrite app_nil_r.
+      rewrite app_nil_r. rewrite pairing_identity. cbn [pair_results].
       destruct (wk st) as [|b d|b] eqn:Ew; try exact I.
       unfold wk_ok in Hw; rewrite Ew in Hw.
       assert (Hs' : concat (map snd (started st)) = map fst (answers st ++ combine b (run_model (map rpos b)))).
